@@ -98,15 +98,19 @@ struct Foreign
     std::vector<void*> blocks;
     void               make(std::size_t n, std::size_t size)
     {
+        R->cur_tag = 1;
         for (std::size_t i = 0; i < n; ++i)
             blocks.push_back(R->allocate(size, 16));
+        R->cur_tag = 0;
         R->take_events();
     }
     void release(std::size_t size)
     {
-        for (auto b : blocks)
-            R->deallocate(b, size, 16);
-        blocks.clear();
+        while (!blocks.empty())
+        {
+            R->deallocate(blocks.back(), size, 16);
+            blocks.pop_back();
+        }
         R->take_events();
     }
 };
@@ -744,6 +748,65 @@ int main(int argc, char** argv)
     std::printf("header subject=%s seed=%llu policy=%d fail_at=%ld %s\n", subject.c_str(), seed, region.policy, region.fail_at,
                 cfg_string().c_str());
     bool growing = subject.find("growing") != std::string::npos;
+    if (subject == "minblock")
+    { // C18 grid: a pool created with min_block_size(ns, n) serves n nodes without growing; counters move exactly
+        std::size_t ns_max = nops >= 1000 ? 512 : 96, n_max = nops >= 1000 ? 2000 : 700;
+        long        cases = 0, bad = 0;
+        auto        one = [&](auto pt, const char* name, std::size_t ns, std::size_t n)
+        {
+            using PT = decltype(pt);
+            using Pool = memory_pool<PT, fixed_block_allocator<RegionAlloc>>;
+            std::size_t bs = Pool::min_block_size(ns, n);
+            Pool        pool(ns, bs, RegionAlloc(region));
+            std::size_t cap0 = pool.capacity_left(), got = 0;
+            std::size_t step = n > 300 ? 97 : 1; // count through capacity_left for big n, one by one for small n
+            if (step == 1)
+            {
+                std::vector<void*> ps;
+                while (void* p = pool.try_allocate_node())
+                {
+                    ps.push_back(p);
+                    ++got;
+                    if (pool.capacity_left() != cap0 - got * pool.node_size())
+                    {
+                        oracle.fail(fmt("minblock %s ns=%zu n=%zu: capacity_left moved by %zu instead of %zu", name, ns, n,
+                                        cap0 - pool.capacity_left(), got * pool.node_size()));
+                        break;
+                    }
+                }
+                for (auto p : ps)
+                    pool.deallocate_node(p);
+                if (pool.capacity_left() != cap0)
+                    oracle.fail(fmt("minblock %s ns=%zu n=%zu: capacity_left %zu after releasing everything, %zu before", name, ns, n,
+                                    pool.capacity_left(), cap0));
+            }
+            else
+                got = cap0 / pool.node_size();
+            ++cases;
+            if (got < n)
+            {
+                ++bad;
+                oracle.fail(fmt("minblock %s ns=%zu n=%zu: block of min_block_size=%zu serves only %zu nodes", name, ns, n, bs, got));
+            }
+            region.take_events();
+        };
+        for (std::size_t ns = 1; ns <= ns_max; ns += (ns < 40 ? 1 : 1 + g.below(9)))
+            for (std::size_t n = 1; n <= n_max; n += (n < 20 ? 1 : 1 + g.below(n_max > 1000 ? 13 : 29)))
+            {
+                one(node_pool{}, "node", ns, n);
+                one(array_pool{}, "array", ns, n);
+                one(small_node_pool{}, "small", ns, n);
+                // the boundary lattice of the small list: multiples of 255
+                if (n % 50 == 0)
+                    for (std::size_t m : {255u, 256u, 509u, 510u, 511u, 765u, 1020u, 1021u})
+                        one(small_node_pool{}, "small", ns, m);
+            }
+        std::printf("summary ops=%ld ok=%ld null=0 throw=0 grow=0 cases=%ld bad=%ld up_alloc=%ld up_dealloc=%ld up_fail=0 oracle_checks=%ld\n",
+                    cases, cases - bad, cases, bad, region.n_alloc, region.n_dealloc, cases);
+        for (auto& f : oracle.failures)
+            std::printf("oracle-fail %s\n", f.c_str());
+        return 0;
+    }
     if (subject.rfind("pool-", 0) == 0)
     {
         static const std::size_t nss[] = {1, 3, 8, 12, 16, 24, 29, 32, 48, 64, 100};
